@@ -639,4 +639,128 @@ theorem frameLoop_exec_sel (d : Dfsr) (st : Store) (t : Nat) (bs : List Nat) (n 
             exact hex
           · rw [hfs', hfs1]; simp [setRows, rowOfSel]; ring_nf
 
+
+/-! ### one record and all map entries for a channel subset -/
+
+/-- the head of `genEvents` without an indirect word: the move to the first selected channel of the first frame -/
+def headSel (p : Plan) (pre : Option Ev) (a : Nat) : List Ev :=
+  match pre with
+  | some pr => [⟨pr.ty, a * p.frameSize + pr.siz, some a, pr.cf, pr.ct⟩]
+  | none => if a > 0 then [⟨.skip, a * p.frameSize, some a, none, some 0⟩] else []
+
+theorem genEvents_sel (p : Plan) (cs : List Nat) (a b c : Nat) (pre post : Option Ev) (fevts : List Ev)
+    (hpi : p.indr = 0) (hne : cs ≠ []) (hsorted : cs.Pairwise (· < ·)) (hlt : ∀ x ∈ cs, x < p.numChannels)
+    (hab : a < b) (hc : 0 < c) (hret : retFrameEvents p cs = (pre, fevts, post)) :
+    genEvents p a b c cs = .ok (headSel p pre a ++ frameLoop p fevts post (mergedPostFramePre p pre post c) b c (b - a) a none) := by
+  have hchk : checkChIdx p cs = .ok cs := by
+    unfold checkChIdx
+    rw [sortDedup_of_sorted _ hsorted]
+    simp only
+    cases hl : cs.getLast? with
+    | none => rfl
+    | some x =>
+      have := hlt x (List.mem_of_getLast? hl)
+      simp [show ¬ x ≥ p.numChannels by omega]
+  have hc0 : ¬ c = 0 := by omega
+  have hlen : cs.length > 0 := by cases cs with | nil => exact absurd rfl hne | cons x xs => simp
+  unfold genEvents
+  simp only [hchk, hc0, if_false, hlen, hab, and_self, if_true, hret, hpi, Nat.lt_irrefl, List.nil_append]
+  unfold headSel
+  cases pre with
+  | some pr => simp
+  | none =>
+    by_cases ha : 0 < a
+    · simp [ha]
+    · simp [ha]
+
+
+/-- **One record, channel subset, direct X**: like `block_exec_all` for the selected channels `c0 :: rest`. -/
+theorem block_exec_sel (d : Dfsr) (st : Store) (t : Nat) (bs : List Nat) (n a step len frInt : Nat) (p : Plan)
+    (c0 : Nat) (rest : List Nat)
+    (hp : p = ⟨0, d.chans.map Chan.size⟩) (hok : d.sizesOk) (hstep : 0 < step)
+    (hltc : ∀ c ∈ c0 :: rest, c < d.chans.length) (hsorted : (c0 :: rest).Pairwise (· < ·))
+    (hfind : Store.find st t = some bs) (hhead : bs.head? = some d.dataType)
+    (hbs : bs.length = 2 + n * sumN (d.chans.map Chan.size)) (hlast : a + len * step < n)
+    (r : Run) (hch : r.fs.chIdx = c0 :: rest)
+    (hrows : ∀ row ∈ r.fs.frames, row.length = sumN ((selChans d (c0 :: rest)).map Chan.numValues))
+    (hN : frInt + (len + 1) ≤ r.fs.frames.length) :
+    ∃ a' b' c' evs r', sliceFromList (ap a step (len + 1)) = .ok (a', b', c') ∧
+      genEvents p a' b' c' (c0 :: rest) = .ok evs ∧
+      execEvs d st (⟨.seekLr, t, none, none, none⟩ :: renumber (ap a step (len + 1)) frInt evs 0) r = .ok r' ∧
+      r'.fs = { r.fs with frames := setRows r.fs.frames frInt ((ap a step (len + 1)).map (rowOfSel d p (c0 :: rest) bs)) } := by
+  obtain ⟨c, hc, hsl, hrl, _⟩ := sliceFromList_ap a step len hstep
+  have hpi : p.indr = 0 := by rw [hp]
+  have hps : p.sizes = d.chans.map Chan.size := by rw [hp]
+  have hnc : p.numChannels = d.chans.length := by rw [hp]; simp [Plan.numChannels]
+  have hfs : p.frameSize = sumN (d.chans.map Chan.size) := by rw [hp]; rfl
+  have hab : a < a + len * step + 1 := by omega
+  cases hret : retFrameEvents p (c0 :: rest) with
+  | mk pre r2 =>
+    obtain ⟨fevts, post⟩ := r2
+    have hgen := genEvents_sel p (c0 :: rest) a (a + len * step + 1) c pre post fevts hpi (by simp) hsorted
+      (by intro x hx; rw [hnc]; exact hltc x hx) hab hc hret
+    obtain ⟨_, _, _, hpre, _⟩ := retFrameEvents_spec p c0 rest hsorted 0 pre fevts post hret
+    obtain ⟨ops0, hseek⟩ := exec_seek d st r t bs none none none hfind hhead (by omega)
+    have hb : ∀ i, (ap a step (len + 1))[0 + i]? = (rangeList a (a + len * step + 1) c)[i]? := by
+      intro i; rw [hrl, Nat.zero_add]
+    have hinc := ap_inc a step (len + 1) hstep
+    have hlenR : rangeLen a (a + len * step + 1) c = len + 1 := by
+      have : (rangeList a (a + len * step + 1) c).length = (ap a step (len + 1)).length := by rw [hrl]
+      simpa [rangeList, ap] using this
+    have han : (a + 1) * p.frameSize ≤ n * p.frameSize := Nat.mul_le_mul_right _ (by omega)
+    have han' : (a + 1) * p.frameSize = a * p.frameSize + p.frameSize := by ring
+    have hle2 := skip_le_frame p c0
+    have hbs' : bs.length = 2 + n * p.frameSize := by rw [hfs]; exact hbs
+    -- the state after the head: at the first selected channel of frame a
+    have hheadex : ∃ rh, execEvs d st (⟨.seekLr, t, none, none, none⟩ :: renumber (ap a step (len + 1)) frInt (headSel p pre a) 0) r = .ok rh ∧
+        renumK (ap a step (len + 1)) (headSel p pre a) 0 = 0 ∧
+        rh.cur = some (t, bs) ∧ rh.ofs = 2 + a * p.frameSize + p.skipToChStart c0 ∧ rh.fs = r.fs := by
+      have hst0 : ∀ (e : Ev), e.fr = some a → renumStep (ap a step (len + 1)) 0 e = 0 := by
+        intro e he
+        unfold renumStep
+        have : ¬ (0 + 1 < (ap a step (len + 1)).length ∧ ((ap a step (len + 1))[0 + 1]? = e.fr ∧ e.fr.isSome)) := by
+          intro ⟨_, he', _⟩
+          rw [he] at he'
+          have h0 : (ap a step (len + 1))[0]? = some a := by rw [ap_getElem]; simp
+          have := hinc 0 (0 + 1) a a (by omega) h0 he'
+          omega
+        rw [if_neg this]
+      unfold preIs at hpre
+      unfold headSel
+      cases pre with
+      | some pr =>
+        simp only at hpre ⊢
+        obtain ⟨hty, hsz, _⟩ := hpre
+        have h0 := hst0 ⟨pr.ty, a * p.frameSize + pr.siz, some a, pr.cf, pr.ct⟩ rfl
+        obtain ⟨ops1, hsk⟩ := exec_skip' d st ⟨some (t, bs), 2, r.fs, ops0⟩ t bs (a * p.frameSize + pr.siz)
+          (some (frInt + 0)) pr.cf pr.ct rfl (by simp only; rw [hsz]; omega)
+        refine ⟨⟨some (t, bs), 2 + (a * p.frameSize + pr.siz), r.fs, ops1⟩, ?_, by simp only [renumK, h0], rfl, by simp only; rw [hsz]; omega, rfl⟩
+        rw [renumber_cons, h0]
+        simp only [renumber, execEvs, hseek, hty, hsk]
+      | none =>
+        simp only at hpre ⊢
+        subst hpre
+        have hA : p.skipToChStart 0 = 0 := skip_zero p
+        by_cases ha : 0 < a
+        · simp only [ha, if_true]
+          have h0 := hst0 ⟨.skip, a * p.frameSize, some a, none, some 0⟩ rfl
+          obtain ⟨ops1, hsk⟩ := exec_skip' d st ⟨some (t, bs), 2, r.fs, ops0⟩ t bs (a * p.frameSize)
+            (some (frInt + 0)) none (some 0) rfl (by simp only; omega)
+          refine ⟨⟨some (t, bs), 2 + a * p.frameSize, r.fs, ops1⟩, ?_, by simp only [renumK, h0], rfl, by simp only; rw [hA]; omega, rfl⟩
+          rw [renumber_cons, h0]
+          simp only [renumber, execEvs, hseek, hsk]
+        · have ha0 : a = 0 := by omega
+          subst ha0
+          simp only [Nat.lt_irrefl, if_false]
+          exact ⟨⟨some (t, bs), 2, r.fs, ops0⟩, by simp only [renumber, execEvs, hseek], rfl, rfl, by simp [hA], rfl⟩
+    obtain ⟨rh, hexh, hk0, hcurh, hofsh, hfsh⟩ := hheadex
+    obtain ⟨r', hex, hfs', _⟩ := frameLoop_exec_sel d st t bs n (a + len * step + 1) c (ap a step (len + 1)) frInt p c0 rest
+      pre post fevts hps hpi hok hc hltc hsorted hbs' (by omega) hret hinc (a + len * step + 1 - a) a 0 0 rh hab (Nat.le_refl _) hb
+      (Or.inl rfl) hcurh hofsh (by rw [hfsh]; exact hch) (by rw [hfsh]; exact hrows)
+      (by rw [hlenR, hfsh]; simpa using hN)
+    refine ⟨a, a + len * step + 1, c, _, r', hsl, hgen, ?_, ?_⟩
+    · rw [renumber_append, hk0, ← List.cons_append, execEvs_append, hexh]
+      exact hex
+    · rw [hfs', hrl, hfsh]; simp
+
 end TD.C06
